@@ -63,6 +63,9 @@ def cases(tier, seed):
             for given in (False, True):
                 for md in (False, True):
                     yield {'t': 'archive', 'comp': comp, 'kind': kind, 'given': given, 'md': md}
+        for kind in ('Array', 'RaggedArray'):
+            # an array directory whose own name starts with a dot, holding user files whose names start with a dot
+            yield {'t': 'archive', 'comp': comp, 'kind': kind, 'given': False, 'md': True, 'dotnames': True}
 
 
 def target_dtype(rng, src, how):
@@ -211,6 +214,9 @@ def run_rcopy(case, env, res, d):
                  f'RaggedArray.copy(dtype={tgt}) of pattern {lens} atom {atom} raised {type(e).__name__}: {str(e)[:160]}; '
                  f'left behind: {sorted(p.name for p in (d / "copy").iterdir()) if (d / "copy").exists() else None}', **case)
         return
+    if cp.accessmode != case['accessmode']:
+        res.fail(f'rcopy:accessmode:{case["pattern"]}', f'ragged copy has accessmode {cp.accessmode}, requested {case["accessmode"]}', **case)
+        return
     want_dtype = src_dtype if tgt is None else tgt
     expected = [x.astype(want_dtype) for x in items]
     for tag, h in (('returned', cp), ('fresh', D.RaggedArray(d / 'copy'))):
@@ -255,7 +261,8 @@ def run_archive(case, env, res, d):
     D = env.darr
     kind, comp = case['kind'], case['comp']
     md = dict(MD) if case['md'] else None
-    p = d / 'data.darr'
+    dname = '.data.darr' if case.get('dotnames') else 'data.darr'
+    p = d / dname
     if kind == 'Array':
         h = D.asarray(p, np.arange(30, dtype='>f4').reshape(10, 3), metadata=md)
     elif kind == 'ArrayEmpty':
@@ -267,6 +274,10 @@ def run_archive(case, env, res, d):
         D.truncate_raggedarray(h, 0)
         h = D.RaggedArray(p)
     (p / 'usernotes.txt').write_text('a user file is archived too')
+    if case.get('dotnames'):
+        (p / '.provenance').write_text('so is a user file whose name starts with a dot')
+        (p / '.cache').mkdir()
+        (p / '.cache' / 'x.bin').write_bytes(b'\x00\x01')
     given = d / 'out' / f'given-name.tar.{comp}'
     (d / 'out').mkdir()
     before = snapshot(p)
@@ -275,7 +286,7 @@ def run_archive(case, env, res, d):
     except Exception as e:
         res.fail(f'archive-raised:{type(e).__name__}', f'archive({comp}) of {kind} raised {e}', **case)
         return
-    want_path = given if case['given'] else d / f'data.darr.tar.{comp}'
+    want_path = given if case['given'] else d / f'{dname}.tar.{comp}'
     res.count('mon.archive_bytes')
     if str(ret) != str(want_path) or not want_path.is_file():
         res.fail('archive:path', f'archive returned {ret}, expected {want_path} (exists: {want_path.exists()})', **case)
@@ -290,14 +301,14 @@ def run_archive(case, env, res, d):
             tf.extractall(ex, filter='data')
         except TypeError:
             tf.extractall(ex)
-    got = snapshot(ex / 'data.darr')
+    got = snapshot(ex / dname)
     if got != before:
         res.fail('archive:extraction-differs', f'extracted tree differs from the directory: {snapdiff(before, got)}; '
                  f'top-level entries {sorted(x.name for x in ex.iterdir())}', **case)
         return
     res.count('mon.archive_reopen')
     try:
-        o = D.open(ex / 'data.darr')
+        o = D.open(ex / dname)
         if kind.startswith('Array'):
             same = bits_equal(o[:], h[:]) and dict(o.metadata) == dict(h.metadata)
         else:
@@ -328,7 +339,7 @@ def run_archive(case, env, res, d):
         h.archive(filepath=str(given) if case['given'] else None, compressiontype=comp, overwrite=True)
         with tarfile.open(want_path, f'r:{comp}') as tf:
             names = tf.getnames()
-        if 'data.darr' not in names:
+        if dname not in names:
             res.fail('archive:overwrite-true-bad-archive', f'names {names[:5]}', **case)
     except Exception as e:
         res.fail(f'archive:overwrite-true-raised:{type(e).__name__}', str(e), **case)
